@@ -9,7 +9,7 @@ def W(q, t, **kw):
             'thorough': dict({'runs': t, 'cap_s': 1200, 'batch': 500}, **kw)}
 
 
-WORLD = W(24000, 1200000)
+WORLD = W(40000, 1200000)
 
 PLANS = {}
 for _p in ('C01', 'C02', 'C03', 'C04', 'C05', 'C06', 'C07', 'C08', 'C09',
@@ -17,21 +17,21 @@ for _p in ('C01', 'C02', 'C03', 'C04', 'C05', 'C06', 'C07', 'C08', 'C09',
     PLANS[_p] = [('world', WORLD)]
 
 # C12: focused semaphore programs, then the quiescence audit of end-to-end runs
-PLANS['C12'] = [('sem', W(60000, 4000000, batch=1000)),
-                ('world', W(8000, 300000, gen_prop='C04'))]
+PLANS['C12'] = [('sem', W(100000, 4000000, batch=1000)),
+                ('world', W(12000, 300000, gen_prop='C04'))]
 
 # C16: focused delivery histories, then end-to-end non-seekable downloads
-PLANS['C16'] = [('defer', W(60000, 3000000, batch=1000)),
-                ('world', W(12000, 500000, gen_prop='C16'))]
-PLANS['C13'] = [('bw', W(60000, 3000000, batch=1000)),
-                ('world', W(5000, 300000, gen_prop='C13'))]
-PLANS['C19'] = [('pp', W(40000, 2000000, batch=500))]
-PLANS['C02'].append(('pp', W(10000, 400000, batch=500)))
-PLANS['C06'].append(('pp', W(10000, 400000, batch=500)))
-PLANS['C20'] = [('crt', W(40000, 2000000, batch=500))]
+PLANS['C16'] = [('defer', W(80000, 3000000, batch=1000)),
+                ('world', W(20000, 500000, gen_prop='C16'))]
+PLANS['C13'] = [('bw', W(80000, 3000000, batch=1000)),
+                ('world', W(10000, 300000, gen_prop='C13'))]
+PLANS['C19'] = [('pp', W(80000, 2000000, batch=500))]
+PLANS['C02'].append(('pp', W(15000, 400000, batch=500)))
+PLANS['C06'].append(('pp', W(15000, 400000, batch=500)))
+PLANS['C20'] = [('crt', W(80000, 2000000, batch=500))]
 for _p in ('C01', 'C02', 'C05', 'C06'):
-    PLANS[_p].append(('legacy', W(8000, 400000, batch=500)))
-PLANS['C17'] = [('coord', W(80000, 5000000, batch=1000))]
+    PLANS[_p].append(('legacy', W(12000, 400000, batch=500)))
+PLANS['C17'] = [('coord', W(150000, 5000000, batch=1000))]
 
 
 def run(prop, tier, runs=None, cap=None):
